@@ -61,7 +61,7 @@ pub static INFO: PropInfo = PropInfo {
     level: "exploration",
     rule: "one evaluation = one random sequence of 400-1600 public API calls (after a scripted prelude that walks through every cause of disconnection once) on one RenetServer with 2-4 client ids and a pool of up to 6 RenetClients (remote peers, stand-alone, local clients): add/remove_connection, disconnect, disconnect_all, new/disconnect/process_local_client, send/broadcast(_except)/receive, process_packet(_from) with honest, mutated, crafted and random datagrams, get_packets_to_send, update, get_event (drained at random moments, sometimes one event at a time), set_connected/connecting, disconnect, disconnect_due_to_transport, over-budget sends. A reference state machine per id (Absent | Healthy | Dead(first reason)) and per client observes presence and status after every call and compares: a dead object stays dead with the same reason, emits nothing, yields nothing, accepts nothing; the per-id event stream alternates and each removal reports the first reason. Non-trivial = at least 3 distinct causes of disconnection occurred, at least one removal of an already-dead connection was reported and at least 20 probes were made on dead objects; distinct = distinct hashes of (operation, observed transition, event) history.",
     assumptions: &[
-        "symmetric channel lists (client list == server list): new_local_client builds the local client with the server-side orientation, so only symmetric configurations let a local client talk to its server connection",
+        "symmetric channel lists (client list == server list) in this driver; lists that differ between the directions, local clients included, are exercised by C01-C03 (asymmetric kinds) and by C11's host-player runs",
         "a disconnect observed during a call that is not a named cause (update, receive_message, status setters) is adopted as the first reason and counted, not judged",
         "'accepts no packets' is observed through the verif_* accessors (pending acks, receive memory, sent-packet table) and through receive_message",
         "panics of the code under test on hostile packets are left to C06 (run abandoned, counted)",
